@@ -468,6 +468,17 @@ func scenarioC20Serve(rc *RunCtx) *Violation {
 	if v := abnormal(s, "serve clients "+strings.Join(progDesc, "; ")); v != nil {
 		return v
 	}
+	// faults of the simulated network that were actually delivered in this run
+	rc.Stats.Faults["net_port_in_use"] += netStats.ListenInUse
+	rc.Stats.Faults["net_dial_refused"] += netStats.DialsRefused
+	for _, e := range s.Events() {
+		if e.Kind == "call>" && e.S == "get" && e.T == "aborted" {
+			rc.Stats.Faults["net_request_abandoned_by_client"]++
+		}
+		if e.Kind == "sse-close" && e.S == "deadline" {
+			rc.Stats.Faults["net_event_stream_dropped_by_client"]++
+		}
+	}
 	if netStats.Accepts > 0 {
 		rc.Probe("serve_connection_accepted")
 	}
